@@ -1,4 +1,4 @@
-(* Model of the default sync engine at /repo HEAD (after fix commits e6f7150 and 1572875): SyncManager (transports/p2p/p2psync/manager.go) together with the
+(* Model of the default sync engine at /repo HEAD (after fix commits e6f7150, 1572875 and fc399a8): SyncManager (transports/p2p/p2psync/manager.go) together with the
    duplicate-request filter of Peer.PushGetHeadersMsg and the Connected() guard of Peer.QueueMessage
    (transports/p2p/peer/peer.go).  Definitions only.  The model mirrors the code AS IT IS.
 
@@ -51,6 +51,9 @@ Fixpoint adel {A} (p : N) (l : list (N * A)) : list (N * A) :=
   match l with [] => [] | (q, b) :: r => if N.eqb q p then adel p r else (q, b) :: adel p r end.
 
 Definition opt_eqb (a : option N) (p : N) : bool := match a with Some q => N.eqb q p | None => false end.
+
+(* sm.checkpoints: the configured list, nil when checkpoints are disabled (fc399a8) *)
+Definition sm_cps (cfg : dcfg) : list cp := if c_disable cfg then [] else c_cps cfg.
 
 (* SyncManager.New *)
 Definition d_init (cfg : dcfg) (s : store) : dstate :=
@@ -160,22 +163,25 @@ Definition on_tick (cfg : dcfg) (hint : N) (st : dstate) (aged : bool) : dstate 
 
 (* the loop of handleHeadersMsg over one batch *)
 Inductive hres := HDone (s : store) (received : bool) (final : option N) | HBan (s : store) | HMismatch (s : store).
-Fixpoint hloop (f : list N) (next : option cp) (s : store) (rc : bool) (fin : option N) (hs : list src) : hres :=
+Fixpoint hloop (f : list N) (cps : list cp) (next : option cp) (s : store) (rc : bool) (fin : option N) (hs : list src) : hres :=
   match hs with
   | [] => HDone s rc fin
   | h :: r =>
     match add f s h with
-    | (s', Duplicate) => hloop f next s' rc fin r
+    | (s', Duplicate) => hloop f cps next s' rc fin r
     | (s', Forbidden) => HBan s'
-    | (s', ErrNoTip) => hloop f next s' rc fin r
+    | (s', ErrNoTip) => hloop f cps next s' rc fin r
     | (s', Stored x) =>
       let hh := height (create_header s h) in
       let fin' := match x with Longest => Some (s_id h) | _ => fin end in
+      (* verifyCheckpointHeight: the cursor's checkpoint first (orphans included, as before); otherwise any other
+         configured checkpoint at that height (non-orphans only) *)
       match next with
       | Some (H, cid) =>
-        if hh =? H then (if N.eqb (s_id h) cid then hloop f next s' true fin' r else HMismatch s')
-        else hloop f next s' rc fin' r
-      | None => hloop f next s' rc fin' r
+        if hh =? H then (if N.eqb (s_id h) cid then hloop f cps next s' true fin' r else HMismatch s')
+        else if contradicts cps x hh (s_id h) then HMismatch s'
+        else hloop f cps next s' rc fin' r
+      | None => if contradicts cps x hh (s_id h) then HMismatch s' else hloop f cps next s' rc fin' r
       end
     end
   end.
@@ -189,7 +195,7 @@ Definition on_headers (cfg : dcfg) (st : dstate) (p : N) (hs : list src) : dstat
     else match hs with
     | [] => (st, [])
     | _ =>
-      match hloop (c_forb cfg) (d_next st) (d_store st) false None hs with
+      match hloop (c_forb cfg) (sm_cps cfg) (d_next st) (d_store st) false None hs with
       | HBan s' => let '(st1, e1) := disc (with_store st s') p in (st1, Ban p :: e1)
       | HMismatch s' => disc (with_store st s') p
       | HDone s' rc fin =>
